@@ -1,6 +1,6 @@
 import Garr.Conc
 /-!
-# Small-step model of `worker-pool/pool.go` (after the `fix:` commits 4ca4c2b, 1d81fc9, eaca25b)
+# Small-step model of `worker-pool/pool.go` (after the `fix:` commits 4ca4c2b, 1d81fc9, eaca25b, 7805de8)
 
 Go semantics modelled from the language specification: a buffered channel of capacity 1 (`taskQueue`) with a
 `closed` flag; `select` chooses ANY ready case (`Act.choose k`); a send on a closed channel panics (also inside
@@ -193,8 +193,8 @@ def step (P : Params) (_t : Tid) (g : G) : L → Act → Option (G × L × List 
   | .st1, .tau => some ({ g with wg := g.wg + P.nworker, spawnFixed := g.spawnFixed + P.nworker }, .st2, [])
   | .st2, .tau => some ({ g with readers := g.readers - 1 }, .idle, [.retStart])
   -- Stop
-  | .sp0, .tau => if g.state = 1 then some ({ g with state := 2 }, .sp2, []) else some (g, .sp1, [])
-  | .sp1, .tau => if g.state = 0 then some ({ g with state := 2 }, .sp2, []) else some (g, .idle, [.retStop])
+  | .sp0, .tau => if g.state = 0 then some ({ g with state := 2 }, .sp2, []) else some (g, .sp1, [])      -- CAS 0→2 first
+  | .sp1, .tau => if g.state = 1 then some ({ g with state := 2 }, .sp2, []) else some (g, .idle, [.retStop])
   | .sp2, .tau => some ({ g with ctxDone := true }, .sp3a, [])
   | .sp3a, .tau => if g.writer || g.wpending then none else some ({ g with wpending := true }, .sp3b, [])
   | .sp3b, .tau => if g.readers = 0 then some ({ g with wpending := false, writer := true }, .sp3c, []) else none
